@@ -197,9 +197,14 @@ class Lexer:
         while self._current() and self._current().isdigit():
             self._advance()
 
-        # Decimal point
+        # Decimal point: the fraction digits are optional (1. and 1.e3 are numbers),
+        # but "1.toFixed" keeps meaning a property access on 1
         is_float = False
-        if self._current() == "." and self._peek().isdigit():
+        after_dot = self._peek()
+        name_follows = after_dot != "" and (after_dot.isalpha() or after_dot in "_$")
+        if self._current() == "." and (
+            not name_follows or (after_dot in "eE" and self._exponent_follows(1))
+        ):
             is_float = True
             self._advance()  # .
             while self._current() and self._current().isdigit():
@@ -220,6 +225,13 @@ class Lexer:
         if is_float:
             return float(num_str)
         return as_double(int(num_str))
+
+    def _exponent_follows(self, offset: int) -> bool:
+        """Is there a complete exponent part (e, optional sign, digit) at pos + offset?"""
+        nxt = self._peek(offset + 1)
+        if nxt in ("+", "-"):
+            nxt = self._peek(offset + 2)
+        return nxt.isdigit()
 
     def _read_identifier(self) -> str:
         """Read an identifier."""
